@@ -301,12 +301,13 @@ def run_traces(ctx, bcfg):
     rng = ctx.rng
     n = 200 if ctx.tier == "quick" else 2500
     bc = "bcfg_fixed" if bcfg["shared_counter"] else "bcfg_pinned"
-    coq_cases, coq_meta, wf_meta = [], [], []
+    coq_cases, coq_meta, wf_meta, dup_info = [], [], [], []
     tot = _new_stats()
     cnt = {"traces": 0, "models": 0, "with_sub": 0, "with_fn": 0, "redefines": 0, "disjoint": 0, "ort_runs": 0,
            "node_names_repeated_across_graphs": 0, "inline_vs_call": 0}
+    directed = TR.directed_traces()
     for t in range(n):
-        tr = TR.gen_trace(rng, n_steps=rng.choice([3, 6, 10, 14]))
+        tr = directed[t] if t < len(directed) else TR.gen_trace(rng, n_steps=rng.choice([3, 6, 10, 14]))
         replay_doc = {"trace": repr(tr)[:6000]}
         modes = ["call"]
         has_fn = any(_has_fn(s) for s in tr["steps"])
@@ -330,41 +331,40 @@ def run_traces(ctx, bcfg):
                       bool(st["named"]), bool(st["castlike"]), bool(st["lits"])))
             if t == 0 and mode == "call":
                 ctx.sample({"model": "B/C", "trace": TR.steps_lit(info["steps"])[:1500], "node_names": TR.node_names_creation_order(proto.graph)[:12]})
-            # ---- names
+            # ---- names (duplicates across graphs are attributed to the restarted counter only if the model,
+            #      evaluated below with the probed behaviour, predicts exactly this graph)
             rep = TR.name_report(proto.graph)
-            explained = False
+            dup_cross = bool(rep["redefines_visible"] or rep["disjoint_dups"])
+            if rep["same_graph_dups"]:
+                ctx.violation("C18:names:value-name-duplicate-in-graph", f"trace {t} ({mode}): value name {rep['same_graph_dups'][0][1]!r} is defined twice in "
+                              f"{'/'.join(rep['same_graph_dups'][0][0]) or 'the main graph'}", dict(replay_doc, dup=rep["same_graph_dups"][:3]))
             if rep["redefines_visible"]:
                 cnt["redefines"] += 1
-                explained = True
-                key = K_REDEF if not bcfg["shared_counter"] else "C18:names:value-name-redefined"
-                ctx.violation(key, f"trace {t} ({mode}): value name {rep['redefines_visible'][0][1]!r} is defined again inside "
-                              f"{'/'.join(rep['redefines_visible'][0][0]) or 'the main graph'} while visible from an enclosing graph",
-                              dict(replay_doc, dup=rep["redefines_visible"][:3]))
             elif rep["disjoint_dups"]:
                 cnt["disjoint"] += 1
-                key = K_DISJ if not bcfg["shared_counter"] else "C18:names:value-name-repeated"
-                ctx.violation(key, f"trace {t} ({mode}): value name {rep['disjoint_dups'][0][1]!r} is used for two values in disjoint subgraphs",
-                              dict(replay_doc, dup=rep["disjoint_dups"][:3]))
             if rep["node_dups"]:
                 ctx.violation("C18:names:node-name-duplicate-in-graph", f"trace {t} ({mode}): node names repeated within one graph: {rep['node_dups'][:2]}", replay_doc)
             nn = TR.node_names_creation_order(proto.graph)
             if len(set(nn)) != len(nn):
                 cnt["node_names_repeated_across_graphs"] += 1
             # ---- validity
+            bad_names = bool(rep["redefines_visible"] or rep["same_graph_dups"])
             try:
                 onnx.checker.check_model(proto)
-                if rep["redefines_visible"]:
-                    ctx.tie_broken("checker", "onnx.checker", f"trace {t}: accepted a model whose subgraph redefines an outer name")
+                if bad_names:
+                    ctx.tie_broken("checker", "onnx.checker", f"trace {t}: accepted a model in which a visible name is defined again")
             except Exception as e:  # noqa: BLE001
-                if not rep["redefines_visible"]:
+                if not bad_names:
                     ctx.violation("C18:valid:onnx-checker-rejects", f"trace {t} ({mode}): {str(e)[:300]}", replay_doc)
-            # Coq: every call-mode model; a quarter of the inline-mode ones (their nodes are observed, CRaw)
-            if mode == "call" or t % 4 == 0:
-                wf_meta.append((t, mode, bool(rep["redefines_visible"] or rep["disjoint_dups"])))
+            # Coq: every call-mode model, every model with repeated names; a quarter of the other inline-mode ones
+            # (their nodes are observed, CRaw)
+            if mode == "call" or dup_cross or t % 4 == 0:
+                wf_meta.append((t, mode, bool(dup_cross or rep["same_graph_dups"])))
                 coq_cases.append(TR.trace_case_lit(tr, info, proto))
                 coq_meta.append((t, mode))
+                dup_info.append((t, mode, rep, dict(replay_doc)) if dup_cross else None)
             # ---- semantics: onnxruntime (no optimisation) against the NumPy reading, on objects (duplicates renamed apart)
-            if rep["redefines_visible"] or rep["disjoint_dups"]:
+            if dup_cross or rep["same_graph_dups"]:
                 TR.uniquify_for_execution(info)
                 proto = TR.serialize(info)
             outs = []
@@ -411,7 +411,24 @@ def run_traces(ctx, bcfg):
         if not okc or len(vals) < 2:
             ctx.tie_broken("correspondence", "modelBC:evaluation", raw[-1500:])
             continue
-        disagree += [coq_meta[k * shard + j] for j in common.parse_nat_list(vals[0])]
+        dis = set(common.parse_nat_list(vals[0]))
+        disagree += [coq_meta[k * shard + j] for j in sorted(dis)]
+        for j in range(len(coq_cases[k * shard:(k + 1) * shard])):
+            di = dup_info[k * shard + j]
+            if di is None:
+                continue
+            t, mode, rep, doc = di
+            first = (rep["redefines_visible"] or rep["disjoint_dups"])[0]
+            where = "/".join(first[0]) or "the main graph"
+            if j in dis or bcfg["shared_counter"]:
+                # not what the model of the (probed) counter behaviour predicts: a different naming defect
+                ctx.violation("C18:names:value-name-defined-in-two-graphs", f"trace {t} ({mode}): value name {first[1]!r} is defined again inside {where}",
+                              dict(doc, dup=[first]))
+            elif rep["redefines_visible"]:
+                ctx.violation(K_REDEF, f"trace {t} ({mode}): value name {first[1]!r} is defined again inside {where} while visible from an enclosing graph",
+                              dict(doc, dup=rep["redefines_visible"][:3]))
+            else:
+                ctx.violation(K_DISJ, f"trace {t} ({mode}): value name {first[1]!r} is used for two values in disjoint subgraphs", dict(doc, dup=rep["disjoint_dups"][:3]))
         for j, b in enumerate(_parse_bools(vals[1])):
             t, mode, dups = wf_meta[k * shard + j]
             if not b and not dups:
